@@ -10,9 +10,9 @@ EXTENDS LibGen, SequencesExt
 Results == SetToSeq(ResultRows)
 Lists == SetToSeq({ps \in AllParamLists : Len(ps) >= 1})
 Singles == SetToSeq({<<r, <<a>>>> : r \in ResultRows, a \in Single})
-Funcs == [i \in 1..Len(Lists) |-> [kind |-> "plain", result |-> Results[(i % Len(Results)) + 1], params |-> Lists[i], ndef |-> 0]]
-         \o [i \in 1..Len(Singles) |-> [kind |-> "plain", result |-> Singles[i][1], params |-> Singles[i][2], ndef |-> 0]]
-Wide == [language |-> "c++", funcs |-> Funcs, class |-> TRUE, ns |-> TRUE,
+Funcs == [i \in 1..Len(Lists) |-> [kind |-> "plain", result |-> Results[(i % Len(Results)) + 1], params |-> Lists[i], ndef |-> 0, tmpl |-> FALSE, gen |-> FALSE]]
+         \o [i \in 1..Len(Singles) |-> [kind |-> "plain", result |-> Singles[i][1], params |-> Singles[i][2], ndef |-> 0, tmpl |-> FALSE, gen |-> FALSE]]
+Wide == [language |-> "c++", funcs |-> Funcs, class |-> TRUE, derived |-> FALSE, ns |-> TRUE,
          opts |-> [F_CFI |-> FALSE, debug |-> TRUE, doxygen |-> TRUE, literalinclude |-> FALSE,
                    show_splicer_comments |-> TRUE, line |-> 72, wrap_c |-> TRUE,
                    wrap_python |-> FALSE, wrap_lua |-> FALSE, wrap_fortran |-> TRUE]]
